@@ -1,5 +1,6 @@
 mod common;
 mod c14;
+mod c10;
 
 fn arg(args: &[String], name: &str, default: &str) -> String {
     args.iter()
@@ -22,6 +23,7 @@ fn main() {
     match args[1].as_str() {
         "version" => println!("{}", pgp::VERSION),
         "c14" => c14::run(&cases, &out, &tier, seed),
+        "c10" => c10::run(&cases, &out, &tier, seed),
         other => {
             eprintln!("unknown check {other}");
             std::process::exit(2);
